@@ -74,7 +74,7 @@ func findU(name string) *uEntry {
 }
 
 var coderBehs = []string{"one", "one-arr", "zero", "two", "partial", "pop-repush", "pop-unsup", "pop2-repush", "unsup", "unsup-after", "unsup-open", "err", "err-after", "reset", "options", "nested-ok", "nested-ws"}
-var coderBehsU = []string{"one", "one-tok", "zero", "two", "partial", "pop-repush", "pop-unsup", "pop2-repush", "unsup", "unsup-after", "unsup-open", "err", "err-after", "reset", "options", "nested"}
+var coderBehsU = []string{"one", "one-tok", "zero", "two", "partial", "open-all", "pop-repush", "pop-unsup", "pop2-repush", "unsup", "unsup-after", "unsup-open", "err", "err-after", "reset", "options", "nested"}
 var bytesBehsM = []string{"one", "one-arr", "zero", "two", "partial", "invalid", "unsup", "err"}
 var textBehsM = []string{"one", "empty", "unsup", "err"}
 var bytesBehsU = []string{"one", "unsup", "err"}
